@@ -268,6 +268,21 @@ def evaluate(c):
                 ref, sc = circuit.laplace(f, a, b)
                 z = m.loads[0].impedance(f, m.pulses[2])
                 chk('CLI-LOAD-VALUE', abs(z - ref) / max(sc, 1e-300), 1e-12, '%s at %g MHz acts as %s, the circuit it describes is %s' % (arg, f, z, ref))
+            # distributed loads as written: conductivity, resistivity, insulation (radius, eps_r), whole antenna and by tag
+            Lp = 1.0        # two half segments of the 10 m / 10 segment wire
+            for arg, kind, par in (('--skin-effect-conductivity=2e6', 'skin', 2e6), ('--skin-effect-conductivity=3.5e7,1', 'skin', 3.5e7),
+                                   ('--skin-effect-resistivity=4e-7', 'skin', 1 / 4e-7), ('--skin-effect-resistivity=2.5e-8,1', 'skin', 1 / 2.5e-8),
+                                   ('--insulation-load=0.004,2.3', 'ins', (0.004, 2.3)), ('--insulation-load=0.0025,4,1', 'ins', (0.0025, 4.))):
+                m, diag = cli.build_main(base + [arg])
+                ev += 1
+                canon.append('cli|%s|%g' % (arg, f))
+                nontriv.append(True)
+                if m is None:
+                    viol.append(('CLI-LOAD-REJECTED', '%s: %s' % (arg, diag[:100])))
+                    continue
+                z = sum(ld.impedance(f, m.pulses[2]) for ld in m.loads for q in ld.pulses if q is m.pulses[2])
+                ref = circuit.skin_per_length(f, 0.001, par)[0] * Lp if kind == 'skin' else circuit.insulation_per_length(f, 0.001, par[0], par[1]) * Lp
+                chk('CLI-DIST-VALUE', abs(z - ref) / abs(ref), 1e-6, '%s at %g MHz loads pulse 3 with %s, the closed form gives %s' % (arg, f, z, ref))
             for txt, zz in (('37-12j', 37 - 12j), ('50', 50 + 0j), ('-3+40j', -3 + 40j), ('1e2', 100 + 0j), ('12j', 12j), ('0.5+1e-3j', 0.5 + 1e-3j)):
                 m, diag = cli.build_main(base + ['--load=' + txt, '--attach-load=1,3'])
                 ev += 1
